@@ -26,6 +26,8 @@ clause → theorem
 * cancel permanent, first reason wins ....................... `cancel_sticky_first_reason`, `cancel_records_first`
 * every later wait reports it; resume refused ............... `waits_report_cancel`, `resume_refused_after_cancel`
 * the release profile never poisons the mutex ............... `release_never_poisons`
+* concurrent callers: every method is one lock region, so every interleaving of calls is a sequential
+  history and all of the above applies to it ................. `single_section_ops`
 -/
 namespace Repe.C11
 open Repe Repe.Transfer
@@ -165,6 +167,38 @@ never poisoned, whatever the history. -/
 theorem release_never_poisons (s : State) (hp : s.poisoned = false) (ops : List Op) :
     (run F .wraps s ops).poisoned = false :=
   run_inv (fun s => s.poisoned = false) (fun s op h => step_wraps_not_poisoned F s op h) ops s hp
+
+/-! ### concurrent callers
+
+The producer thread and the inbound ack / cancel / resume handlers call the methods concurrently. Every method
+body acquires the one mutex exactly once (`Gen.transferLockCalls`, re-extracted from the source on every run:
+one `self.inner.lock()` per body, the state is reachable only through that guard), so a concurrent execution
+is an interleaving of whole calls — some merge `m` of the threads' call sequences — and each history theorem
+above, being about *every* history, applies to `m`. A method split into two lock regions (validate, unlock,
+act) would make the count 2 and this theorem fail: between the regions another thread's cancel or advance
+can complete, and no sequential history describes the result. (The two waits release the mutex only while
+parked on the condvar; with an expired deadline they do not park. Parking is C12.) -/
+theorem single_section_ops :
+    singleSection Gen.transferLockCalls = true ∧
+    ∀ (m' : OvMode) (window capacity : Nat) (ts : List (List Op)) (m : List Op), Merge ts m →
+      (run F m' (init window capacity) m).acked ≤ (run F m' (init window capacity) m).sent ∧
+      (∀ r pre post, m = pre ++ post → (run F m' (init window capacity) pre).cancelled = some r →
+        (run F m' (init window capacity) m).cancelled = some r ∧
+        ((run F m' (init window capacity) m).poisoned = false → ∀ p file off,
+          (step F m' (run F m' (init window capacity) m) (.requestResume p file off)).2 = .resumeCancelled)) := by
+  refine ⟨by decide, ?_⟩
+  intro m' window capacity ts m _
+  refine ⟨acked_le_sent_fresh m' window capacity m, ?_⟩
+  intro r pre post hm hc
+  subst hm
+  rw [run_append]
+  refine ⟨cancel_sticky_first_reason m' _ r hc post, ?_⟩
+  intro hp p file off
+  have := resume_refused_after_cancel m' _ r hc post hp p file off
+  rw [this]
+
+example : Merge [[.requestResume 7 0 1], [.cancel 0, .recordAck 0 1]] [.cancel 0, .requestResume 7 0 1, .recordAck 0 1] :=
+  .pick _ 1 _ _ _ rfl (.pick _ 0 _ _ _ rfl (.pick _ 1 _ _ _ rfl (.done _ (by simp))))
 
 /-! ### Why the sum must not be a bare `+` (finding F3 of DESIGN.md §9)
 
